@@ -1100,6 +1100,7 @@ fn type_class(dt: &DataType) -> String {
         DataType::Decimal64(..) => "Decimal64".into(),
         DataType::Decimal128(..) => "Decimal128".into(),
         DataType::Decimal256(..) => "Decimal256".into(),
+        DataType::FixedSizeBinary(_) => "FixedSizeBinary".into(),
         o => format!("{o}"),
     }
 }
